@@ -3,7 +3,8 @@ import itertools
 
 from harness.vlib import gallina as G
 
-LOCALS = ["a-b", "x?", "a_b", "*v*"]
+LOCALS = ["a-b", "a_b", "x?", "x__Q__", "i", "i__", "acc", "acc__", "f", "f__", "e", "e__", "n", "n__", "*v*", "__STAR__v__STAR__"]
+S1_LOCALS = [0, 2, 1, 14]
 CONSTS = [None, True, False, 0, 1, 2, ["vec"], ["vec", 1, None]]
 OPTS = list(itertools.product([False, True], repeat=3))   # (use-var-indirection, inline-functions, generate-auto-inlines)
 
@@ -50,53 +51,79 @@ def lisp_val(v):
     raise ValueError(v)
 
 
+Q = "Verif.C01.Lisp."
+
+
 def coq_val(v):
     if v is None:
-        return "VNil"
+        return Q + "VNil"
     if v is True:
-        return "(VBool true)"
+        return f"({Q}VBool true)"
     if v is False:
-        return "(VBool false)"
+        return f"({Q}VBool false)"
     if isinstance(v, int):
-        return f"(VInt {G.z(v)})"
+        return f"({Q}VInt {G.z(v)})"
     if isinstance(v, list) and v[0] == "vec":
-        return "(VVec " + G.lst([coq_val(x) for x in v[1:]], "value") + ")"
+        return f"({Q}VVec " + G.lst([coq_val(x) for x in v[1:]], Q + "value") + ")"
     raise ValueError(v)
 
 
 def coq_expr(e):
     k = e[0]
     if k == "const":
-        return f"(EConst {coq_val(e[1])})"
+        return f"({Q}EConst {coq_val(e[1])})"
     if k == "local":
-        return f"(ELocal {G.n(e[1])})"
+        return f"({Q}ELocal {G.n(e[1])})"
     if k == "if":
-        return f"(EIf {coq_expr(e[1])} {coq_expr(e[2])} {coq_expr(e[3])})"
+        return f"({Q}EIf {coq_expr(e[1])} {coq_expr(e[2])} {coq_expr(e[3])})"
     if k == "do":
-        return f"(EDo {coq_expr(e[1])} {coq_expr(e[2])})"
+        return f"({Q}EDo {coq_expr(e[1])} {coq_expr(e[2])})"
     if k == "let":
-        return f"(ELet {G.n(e[1])} {coq_expr(e[2])} {coq_expr(e[3])})"
+        return f"({Q}ELet {G.n(e[1])} {coq_expr(e[2])} {coq_expr(e[3])})"
     if k == "call":
-        f = {"t": "PTrace", "vec": "PVec"}[e[1]]
-        return f"(ECall {f} " + G.lst([coq_expr(a) for a in e[2]], "expr") + ")"
+        f = {"t": Q + "PTrace", "vec": Q + "PVec"}[e[1]]
+        return f"({Q}ECall {f} " + G.lst([coq_expr(a) for a in e[2]], Q + "expr") + ")"
     raise ValueError(k)
 
 
 def coq_case(c):
-    return coq_expr(c["e"])
+    if c.get("full"):
+        from harness.props import c01_full as F
+        return f"(CF {F.coq_expr(c['e'])})"
+    return f"(CS {coq_expr(c['e'])})"
+
+
+def coq_obs(v):
+    if v is None:
+        return "ONil"
+    if v is True:
+        return "(OBool true)"
+    if v is False:
+        return "(OBool false)"
+    if isinstance(v, int):
+        return f"(OInt {G.z(v)})"
+    if isinstance(v, list) and v[0] == "vec":
+        return "(OVec " + G.lst([coq_obs(x) for x in v[1:]], "obs") + ")"
+    if isinstance(v, dict) and "fn" in v:
+        return "OFn"
+    if isinstance(v, dict) and "var" in v:
+        return f"(OVar {G.n(v['var'])})"
+    if isinstance(v, dict) and "excv" in v:
+        return f"(OExc {G.n(v['excv'])} {coq_obs(v['payload'])})"
+    raise ValueError(v)
 
 
 def coq_out(o):
-    if "val" in o:
-        try:
-            return f"(OVal {coq_val(o['val'])} " + G.lst([coq_val(x) for x in o["trace"]], "value") + ")"
-        except ValueError:
-            return "(OErr 2%N)"
-    if o.get("exc") == "compile":
-        return "(OErr 1%N)"
+    try:
+        if "val" in o:
+            return f"(RVal {coq_obs(o['val'])} " + G.lst([coq_obs(x) for x in o["trace"]], "obs") + ")"
+        if "exc" in o and isinstance(o["exc"], int):
+            return f"(RExc {G.n(o['exc'])} " + G.lst([coq_obs(x) for x in o.get("trace", [])], "obs") + ")"
+    except ValueError:
+        return "RStuck"
     if o.get("__hang__") or o.get("__timeout__"):
-        return "(OErr 3%N)"
-    return "(OErr 2%N)"
+        return "RFuel"
+    return "RStuck"
 
 
 def size(e):
@@ -128,7 +155,7 @@ def rand_expr(rng, depth, scope, ctr):
     if r < 0.3:
         return do(sub(), sub())
     if r < 0.55:
-        x = rng.randrange(len(LOCALS))
+        x = rng.choice(S1_LOCALS)
         return let(x, sub(), rand_expr(rng, depth - 1, sorted(set(scope + [x])), ctr))
     if r < 0.7:
         return t(sub())
@@ -193,6 +220,7 @@ def programs(tier, rng):
 
 
 def cases(tier, rng):
+    from harness.props import c01_full as F
     seen = set()
     for kind, e in programs(tier, rng):
         key = repr(e)
@@ -204,9 +232,25 @@ def cases(tier, rng):
             optsets = [OPTS[0], OPTS[7]]
         for o in optsets:
             yield {"kind": kind, "e": e, "opts": list(o), "lisp": to_lisp(e)}
+        # the same program through the full-fragment model
+        fe = F.embed(e)
+        yield {"kind": kind + "/full", "full": True, "e": fe, "opts": list(optsets[0]), "lisp": F.to_lisp(fe)}
+    for kind, e in F.hazard_programs():
+        for o in (OPTS if tier != "quick" else [OPTS[0], OPTS[5], OPTS[7]]):
+            yield {"kind": "mech:" + kind, "full": True, "e": e, "opts": list(o), "lisp": F.to_lisp(e)}
+    n = 400 if tier == "quick" else 8000
+    for _ in range(n):
+        e = F.random_program(rng)
+        key = repr(e)
+        if key in seen:
+            continue
+        seen.add(key)
+        yield {"kind": "random/full", "full": True, "e": e, "opts": list(rng.choice(OPTS)), "lisp": F.to_lisp(e)}
 
 
 def nontrivial(c, o):
+    if c.get("full"):
+        return len(c["lisp"]) >= 12
     return size(c["e"]) >= 3
 
 
@@ -215,6 +259,8 @@ def describe(c):
 
 
 def shrink(c):
+    if c.get("full"):
+        return
     e = c["e"]
     def subs(e):
         k = e[0]
@@ -252,6 +298,6 @@ def extra_evidence(cases_, outs):
     dist, sizes = {}, {}
     for c in cases_:
         dist[c["kind"]] = dist.get(c["kind"], 0) + 1
-        s = min(size(c["e"]), 30)
+        s = min(len(c["lisp"]) // 10, 30)
         sizes[s] = sizes.get(s, 0) + 1
-    return {"input_distribution": dist, "program_sizes": {str(k): v for k, v in sorted(sizes.items())}}
+    return {"input_distribution": dist, "program_text_length_div10": {str(k): v for k, v in sorted(sizes.items())}}
